@@ -11,12 +11,12 @@ import (
 // net/netip (package initialisation: z4 = unique.Make(addrDetail{}), z6noz = ...; Addr.WithZone), hence by
 // net.ParseIP and net/url's host validation.
 //
-// Model: a canonicalisation table. Fully concrete values are interned per worker (keyed by type and
-// canonical rendering of the value; the cells are never written, so sharing across paths is safe).
-// A value with symbolic content is compared structurally (Worker.equals) against every interned value of
-// the same type and against the symbolic values made earlier on the same path: provably equal => that
-// handle is reused; provably different from all => a fresh handle; otherwise (the equality is a genuinely
-// symbolic condition) the path ends as unsupported rather than guessing.
+// Model: a canonicalisation table. A new value is compared structurally (Worker.equals) with every value of
+// the same type made before; where the equality is a symbolic condition the path forks on it (Path.branch),
+// so a handle is reused exactly on the paths on which the values are equal. Values made during package
+// initialisation stay in the table as long as the worker lives (their handles sit in package-level
+// variables); values made on a path are dropped when the path ends. What a path sees is therefore a function
+// of the path alone, as replay by decision prefix requires.
 
 type uniqueEntry struct {
 	t   types.Type
@@ -25,10 +25,9 @@ type uniqueEntry struct {
 }
 
 type uniqueTable struct {
-	conc    map[string]*Value // type string + concKey -> canonical cell
-	concAll []uniqueEntry
-	path    *Path // owner of sym
-	sym     []uniqueEntry
+	perm []uniqueEntry // made inside package initialisers
+	path *Path         // owner of cur
+	cur  []uniqueEntry // made on the current path
 }
 
 var (
@@ -41,7 +40,7 @@ func uniqueTableOf(w *Worker) *uniqueTable {
 	defer uniqueMu.Unlock()
 	t := uniqueTables[w]
 	if t == nil {
-		t = &uniqueTable{conc: map[string]*Value{}}
+		t = &uniqueTable{}
 		uniqueTables[w] = t
 	}
 	return t
@@ -60,52 +59,26 @@ func extUniqueMake(fr *frame, a []Value) Value {
 	v := copyVal(a[0])
 	tab := uniqueTableOf(w)
 	if tab.path != p {
-		tab.path, tab.sym = p, nil
+		tab.path, tab.cur = p, nil
 	}
-	mk := func() *Value {
-		cell := new(Value)
-		*cell = copyVal(v)
-		return cell
-	}
-	if k, ok := concKey(v); ok {
-		key := T.String() + "|" + k
-		cell := tab.conc[key]
-		if cell == nil {
-			// a concrete value may still equal a symbolic one made earlier on this path
-			for _, e := range tab.sym {
-				if !types.Identical(e.t, T) {
-					continue
-				}
-				eq := w.equals(T, v, e.v)
-				if eq.IsTrue() {
-					return Struct{e.ptr}
-				}
-				if !eq.IsFalse() {
-					p.unsupported("unique.Make: equality with an earlier symbolic value of type %v is not decided", T)
-				}
-			}
-			cell = mk()
-			tab.conc[key] = cell
-			tab.concAll = append(tab.concAll, uniqueEntry{T, v, cell})
-		}
-		return Struct{cell}
-	}
-	for _, list := range [][]uniqueEntry{tab.concAll, tab.sym} {
+	for _, list := range [][]uniqueEntry{tab.perm, tab.cur} {
 		for _, e := range list {
 			if !types.Identical(e.t, T) {
 				continue
 			}
-			eq := w.equals(T, v, e.v)
-			if eq.IsTrue() {
+			if p.branch(w.equals(T, v, e.v)) {
 				return Struct{e.ptr}
-			}
-			if !eq.IsFalse() {
-				p.unsupported("unique.Make: equality of a symbolic value of type %v with an interned value is not decided", T)
 			}
 		}
 	}
-	cell := mk()
-	tab.sym = append(tab.sym, uniqueEntry{T, v, cell})
+	cell := new(Value)
+	*cell = copyVal(v)
+	ent := uniqueEntry{T, v, cell}
+	if w.inInit > 0 {
+		tab.perm = append(tab.perm, ent)
+	} else {
+		tab.cur = append(tab.cur, ent)
+	}
 	return Struct{cell}
 }
 
